@@ -2,7 +2,7 @@
   C02 — Rule text is parsed by the documented grammar, precedence and aliases.
   Property theorems only; helper lemmas live in ASV/Proofs/Parser/*.lean.
   Model: ASV/Model/Parser.lean (tokeniser, parser, printer, create_rules — of the repaired code,
-  see fixes/D17, D25, D26).  Spec: ASV/Spec/Grammar.lean.
+  see fixes/D17, D42, D43).  Spec: ASV/Spec/Grammar.lean.
 -/
 import ASV.Proofs.Parser.Main
 import ASV.Proofs.Parser.Grammar
@@ -188,7 +188,7 @@ theorem alias_is_substitution_partial (s s' : PS) (expected : TT) (c : Tok) (hf 
   consume_view hf h
 
 /-- … and every `Parser` run keeps the table flat (an alias whose name is already used as an
-    identifier inside a definition is refused: fixes/D25), starting from the empty table of
+    identifier inside a definition is refused: fixes/D42), starting from the empty table of
     `create_rules`; so the hypothesis of the step lemma always holds. -/
 theorem aliases_stay_flat (cfg : Cfg) (rules rules' : List Rule) (aliases aliases' : Aliases) (toks : List Tok)
     (h : parseTokens cfg rules aliases toks = .ok (rules', aliases')) (hf : Flat aliases) : Flat aliases' :=
@@ -210,7 +210,7 @@ example : exErr [exHead "r" ++ "a and zz"] = some .value := by decide +kernel   
 example : exErr ["RULE r CATEGORY nope CUTOFF 1 NEIGHBOURHOOD 1 CONDITIONS a"] = some .syntax := by decide +kernel
 example : exErr [exHead "r" ++ "a", exHead "r" ++ "b"] = some .value := by decide +kernel          -- duplicate rule, second file
 example : exErr ["DEFINE x AS a DEFINE x AS b " ++ exHead "r" ++ "a"] = some .syntax := by decide +kernel  -- duplicate alias
-example : exErr ["DEFINE x AS a or x " ++ exHead "r" ++ "x"] = some .value := by decide +kernel    -- D25
+example : exErr ["DEFINE x AS a or x " ++ exHead "r" ++ "x"] = some .value := by decide +kernel    -- D42
 example : exErr [exHead "r" ++ "a or (a)"] = some .value := by decide +kernel                      -- repeated operand
 example : exErr [exHead "r" ++ "(a or b"] = some .syntax := by decide +kernel                      -- unbalanced
 example : exErr [exHead "r" ++ "cds(a)"] = some .syntax := by decide +kernel
